@@ -32,8 +32,12 @@ mcvars == <<vars, m, resid, prev, hist, last, acc>>
 LastCall == IF hist = <<>> THEN [op |-> "init"] ELSE hist[Len(hist)]
 NoResid == [ss |-> "none", class |-> "none"]
 (* prev = resid before the last call: kept in the view when that call was a transformation (the observer of a leak) *)
+(* and ran one of the state-heavy stylesheets S1..S4 on a well-formed source                                        *)
+Observer(c) == /\ c.op = "Transform"
+               /\ DocOf(c.ss, liveSS) \in {"S1", "S2", "S3", "S4"}
+               /\ DocOf(c.src, liveSrc) # "DX"
 View == <<params, fns, liveSS, nSS, liveSrc, nSrc, lastError, m, resid,
-          IF LastCall.op = "Transform" THEN prev ELSE NoResid, LastCall>>
+          IF Observer(LastCall) THEN prev ELSE NoResid, LastCall>>
 
 (* the design check needs neither: the abstract machine and the bookkeeping do not read resid / prev *)
 ViewMC == <<params, fns, liveSS, nSS, liveSrc, nSrc, lastError, m, LastCall>>
